@@ -4,7 +4,7 @@
    element-wise / prefix operations are prefix-closed (extending the input only extends the output), which is what makes a
    pipeline over an endless source well defined on prefixes. *)
 From Coq Require Import List ZArith Arith.
-From Xr Require Import Gen.XGen Gen.XGenProofs.
+From Xr Require Import Gen.XGen Gen.XGenProofs Gen.XGenStable.
 Import ListNotations.
 
 Theorem C16_slice_merge : forall (i o : slice) (l : list Z),
@@ -27,6 +27,13 @@ Theorem C16_lazy_ops_prefix_closed : forall p o,
   end.
 Proof. exact lazy_ops_prefix_closed. Qed.
 
+(* stability of the prefix method used by the correspondence: over count / range / successors sources a pipeline of the
+   element-wise and prefix operations evaluated with a longer look-ahead only EXTENDS the result *)
+Theorem C16_run_stable : forall s ops n m,
+  (match s with SCycle _ => False | _ => True end) -> forallb simple_lazy ops = true -> (n <= m)%nat ->
+  is_prefix (run n s ops) (run m s ops).
+Proof. exact run_stable. Qed.
+
 Example C16_instances :
   run 50 (SRange 10) [OSkip 2; OTake 3] = [2; 3; 4]%Z /\
   run 50 (SRange 10) [OTake 5; OSkip 2] = [2; 3; 4]%Z /\
@@ -35,7 +42,8 @@ Example C16_instances :
   run 50 (SRange 7) [OChunksSum 3] = [3; 12; 6]%Z /\ run 50 (SRange 6) [OWindowsSum 3] = [3; 6; 9; 12]%Z /\
   run 50 (SRange 7) [OMapMod 3; OWithCountMix] = [1; 101; 201; 2; 102; 202; 3]%Z /\
   run 50 (SRange 6) [OGroupNear 1] = [2000; 2002; 2004]%Z /\
-  run 50 (SRange 7) [OAggSum (Some 0%Z)] = [0; 0; 1; 3; 6; 10; 15; 21]%Z /\
+  run 50 (SRange 7) [OAggSum (Some 0%Z)] = [0; 0; -1; -3; -6; -10; -15; -21]%Z /\
+  run 50 (SRange 5) [OMapAdd 100; OAggSum None] = [100; -1; -103; -206; -310]%Z /\
   run 50 (SRange 3) [ORepeat 2] = [0; 1; 2; 0; 1; 2]%Z /\ run 9 (SCycle [1; 2; 3]%Z) [OTake 7] = [1; 2; 3; 1; 2; 3; 1]%Z.
 Proof. vm_compute. repeat split; reflexivity. Qed.
 
@@ -43,4 +51,5 @@ Print Assumptions C16_slice_merge.
 Print Assumptions C16_skip_then_take.
 Print Assumptions C16_take_then_skip.
 Print Assumptions C16_lazy_ops_prefix_closed.
+Print Assumptions C16_run_stable.
 Print Assumptions C16_instances.
